@@ -248,6 +248,44 @@ def r19d(ctx, rep, cr):
     rep.floor('R19d', 'pushes onto BlobWriter.chunks', n, 1)
 
 
+def r19e(ctx, rep, cr):
+    rep.rule('R19e', 'chunks leave the writer in the order the bytes arrived: in BlobWriter::write and ::finish every chunk handed to '
+                     'store_chunk is cut from BlobWriter.buffer (all incoming bytes go through the one buffer), or the call is reachable only '
+                     'through the true edge of buffer.is_empty() — a chunk cut straight from the caller\'s slice while older bytes are '
+                     'pending is stored ahead of them and the artifact reads back permuted')
+    n = 0
+    for base in ('tensor_blob::streaming::BlobWriter::write', 'tensor_blob::streaming::BlobWriter::finish'):
+        for f in A.with_closures(cr.fns, base):
+            sc = A.calls_to(f, ('re', r'BlobWriter::store_chunk$'))
+            if not sc:
+                continue
+            rep.analysed(f)
+            defs = A.Defs(f)
+            for k, c in enumerate(sc):
+                n += 1
+                pf = lib.provenance_fields(f, defs, c.args[1])[0] if len(c.args) > 1 and c.args[1][0] != 'k' else set()
+                if any(x.endswith('BlobWriter.buffer') for x in pf):
+                    rep.holds('R19e', f, 'store_chunk#%d' % k, 'data taken from the buffer')
+                    continue
+                guarded = False
+                for (a, s_) in A.must_pass_edges(f, c.bb):
+                    l = lib.switch_local(f, a)
+                    d = A.single_def(defs, l) if l is not None else None
+                    if d and d[2] == 'call' and d[3].resolved.endswith('::is_empty'):
+                        rs = A.backward_slice(f, [d[3].args[0]], defs) if d[3].args and d[3].args[0][0] != 'k' else None
+                        t = f.bbs[a]['t']
+                        if rs is not None and any(x.endswith('BlobWriter.buffer') for x in rs.fields) and all(v == '0' for v, _ in t[2]) and s_ == t[3]:
+                            guarded = True
+                if guarded:
+                    rep.holds('R19e', f, 'store_chunk#%d' % k, 'only when the buffer is empty')
+                else:
+                    rep.violation('R19e', f, 'chunk-bypasses-buffer', f.loc(c.line),
+                                  'a chunk that was not cut from the writer\'s buffer is stored while earlier bytes may still be pending in '
+                                  'it: a small write followed by a write of a whole chunk stores the later bytes first, get() returns a '
+                                  'permutation of what was written and verify() fails on an undamaged artifact')
+    rep.floor('R19e', 'store_chunk calls in the streaming writer', n, 2)
+
+
 def run(ctx, rep):
     cr = ctx.crate('tensor_blob')
     cg = ctx.callgraph(['tensor_blob'])
@@ -255,3 +293,4 @@ def run(ctx, rep):
     r19b(ctx, rep, cr)
     r19c(ctx, rep, cr, cg)
     r19d(ctx, rep, cr)
+    r19e(ctx, rep, cr)
